@@ -6,7 +6,7 @@
    Drop) are covered per operation and by the correspondence run. *)
 From Coq Require Import ZArith List Bool Lia.
 From MV Require Import Ast Eval Scalar Machine Model Policy.
-From MV.Proofs Require Import Arith Logic Prim View OpsLocal Grow CapHistory Align CapHistory Core.
+From MV.Proofs Require Import Arith Logic Prim View OpsLocal Grow CapHistory Align CapHistory Core Refine Life.
 Import ListNotations.
 Open Scope Z_scope.
 
@@ -86,3 +86,31 @@ Proof.
 Qed.
 
 Print Assumptions C03_all_core_histories.
+
+(* Drop: the block is given back to the allocator exactly once, with exactly the layout it was
+   obtained with (do_dealloc with any other layout is UB in the machine, and `post` excludes UB); a
+   never-allocated vector frees nothing; when an element destructor panics during the drop the block
+   is leaked (never freed twice, never freed with a wrong layout) *)
+Theorem C03_drop_releases_the_block_with_its_layout :
+  forall cfg, cfg_ok cfg -> needs_drop cfg = true -> forall s v l,
+  vabs cfg s v l ->
+  post (drop_vec cfg v s)
+    (fun _ s' => dropped_all s s' v l /\
+                 (vec_sentinel s v /\ heap s' = heap s /\ events s' = events s \/
+                  exists b bl, vec_at s v b bl /\ nth_error (heap s') b = Some (kill bl) /\
+                               exists evs, events s' = EvDealloc (b_size bl) (b_align bl) :: evs))
+    (fun s' => dropped_all s s' v l /\ heap s' = heap s).
+Proof. exact drop_vec_abs. Qed.
+
+(* the whole life: empty vector, ANY history of the element + capacity operations, drop: never UB --
+   no allocator contract violated on any path, whatever panics *)
+Theorem C03_whole_life_respects_the_allocator :
+  forall cfg, cfg_ok cfg -> needs_drop cfg = true ->
+  forall v os s,
+  vec_sentinel s v -> all_settled s -> Forall rop_ok os ->
+  let Q := fun s' => all_settled s' /\ nth_error (vecs s') v = Some None in
+  post (life cfg (ncap_of cfg) v os s) (fun _ s' => Q s') Q.
+Proof. intros cfg Hc Hd. exact (whole_life_nothing_lost cfg (ncap_of cfg) Hc (ncap_policy cfg) Hd). Qed.
+
+Print Assumptions C03_drop_releases_the_block_with_its_layout.
+Print Assumptions C03_whole_life_respects_the_allocator.
